@@ -171,10 +171,34 @@ def ensure_fresh(target_dir):
             f.write(want)
 
 
+_env_ok = None
+
+
+def require_lockable_memory():
+    """The protected-memory checks observe real mlock/mprotect: in an environment that cannot lock a few pages at all
+    (RLIMIT_MEMLOCK without CAP_IPC_LOCK, seccomp) every lock is refused and nothing can be judged - a tool error, never a verdict."""
+    global _env_ok
+    if _env_ok is None:
+        import ctypes, mmap
+        libc = ctypes.CDLL(None, use_errno=True)
+        n = 64 * mmap.PAGESIZE
+        m = mmap.mmap(-1, n)
+        addr = ctypes.addressof(ctypes.c_char.from_buffer(m))
+        rc = libc.mlock(ctypes.c_void_p(addr), ctypes.c_size_t(n))
+        err = ctypes.get_errno()
+        if rc == 0:
+            libc.munlock(ctypes.c_void_p(addr), ctypes.c_size_t(n))
+        _env_ok = (rc == 0, err)
+    if not _env_ok[0]:
+        raise ToolError("this environment cannot lock memory (mlock of 64 pages fails with errno %d): protected-memory checks cannot run here" % _env_ok[1])
+
+
 def build_harness(config="stable"):
     """Builds the harness against /repo's working tree. config: stable | nightly | simd."""
     if config in _built:
         return _built[config]
+    if config in ("nightly", "simd"):
+        require_lockable_memory()      # the nightly harness holds keys in locked containers throughout
     ensure_fresh(os.path.join(HARNESS, "target", config))
     cmd = ["cargo"]
     feats = []
